@@ -1,5 +1,366 @@
 import PkVerif.Drv.Common
-/-! `pkmodel-c08`: stub (property not built yet). -/
+import PkVerif.Model.Search
+import PkVerif.Gen.Facts
+/-! `pkmodel-c08`: the search model behind the line protocol of harness/props/c08 (see world.go). -/
 namespace Pk.Drv.C08
-def machine : Machine := { σ := Unit, init := (), step := fun s _ => (s, "bad-op") }
+open Pk Pk.Search
+
+def tbl : Pk.Ref.Tbl := ⟨Gen.refSizes, Gen.testRefTypes, Gen.maxOtherDigestLen⟩
+
+/-- canonical decimal integer -/
+def intArg (s : String) : Option Int :=
+  match s.toInt? with
+  | none => none
+  | some n => if toString n == s then some n else none
+
+def int64Arg (s : String) : Option Int :=
+  (intArg s).bind (fun n => if -9223372036854775808 ≤ n ∧ n ≤ 9223372036854775807 then some n else none)
+
+def natArg (s : String) : Option Nat :=
+  (int64Arg s).bind (fun n => if 0 ≤ n then some n.toNat else none)
+
+def flagArg (s : String) : Option Bool :=
+  if s == "0" then some false else if s == "1" then some true else none
+
+def isHexLower (c : Nat) : Bool := (48 ≤ c && c ≤ 57) || (97 ≤ c && c ≤ 102)
+
+/-- "sha224-" followed by 56 lower-case hex digits -/
+def refWord (s : String) : Option Ref :=
+  let b := ofString s
+  if b.length == 63 && (ofString "sha224-").isPrefixOf b && (b.drop 7).all isHexLower then some b else none
+
+def keyOK (s : String) : Bool :=
+  let b := ofString s
+  !b.isEmpty && b.length ≤ 24 && b.all (fun c => (97 ≤ c && c ≤ 122) || (48 ≤ c && c ≤ 57))
+
+/-! ### constraint parser (prefix notation; `fuel` bounds the nesting like the Go parser's depth) -/
+
+abbrev P (α : Type) := List String → Option (α × List String)
+
+def pIntC : P (Option IntC)
+  | "-" :: r => some (none, r)
+  | "i" :: mn :: mx :: zmn :: zmx :: e :: r =>
+    match int64Arg mn, int64Arg mx, flagArg zmn, flagArg zmx with
+    | some mn, some mx, some zmn, some zmx =>
+      if e == "-" then some (some ⟨mn, mx, zmn, zmx, none⟩, r)
+      else match int64Arg e with
+        | some e => some (some ⟨mn, mx, zmn, zmx, some e⟩, r)
+        | none => none
+    | _, _, _, _ => none
+  | _ => none
+
+def pStrC : P (Option StrC)
+  | "-" :: r => some (none, r)
+  | "s" :: em :: eq :: ct :: hp :: hs :: r =>
+    match flagArg em, hexArg eq, hexArg ct, hexArg hp, hexArg hs, pIntC r with
+    | some em, some eq, some ct, some hp, some hs, some (bl, r) => some (some ⟨em, eq, ct, hp, hs, bl⟩, r)
+    | _, _, _, _, _, _ => none
+  | _ => none
+
+def pTimeC : P (Option TimeC)
+  | "-" :: r => some (none, r)
+  | "t" :: b :: a :: r =>
+    match natArg b, natArg a with
+    | some b, some a => some (some ⟨b, a⟩, r)
+    | _, _ => none
+  | _ => none
+
+def opOf (s : String) : Option Op :=
+  if s == "and" then some .and else if s == "or" then some .or else if s == "xor" then some .xor
+  else if s == "not" then some .not else none
+
+mutual
+def pCons : Nat → P Cons
+  | 0, _ => none
+  | fuel + 1, ws =>
+    match ws with
+    | "nil" :: r => some (.nil, r)
+    | "c" :: o :: r =>
+      let lg : Option (Op × Cons × Cons × List String) :=
+        if o == "-" then some (.none, .nil, .nil, r) else
+        match opOf o with
+        | none => none
+        | some op =>
+          match pCons fuel r with
+          | none => none
+          | some (a, r) =>
+            match pCons fuel r with
+            | none => none
+            | some (b, r) =>
+              -- A is never nil; B is nil exactly for "not" (the protocol cannot express a nil deref)
+              if a.isNil || (b.isNil != (op == .not)) then none else some (op, a, b, r)
+      match lg with
+      | none => none
+      | some (op, a, b, r) =>
+        match r with
+        | an :: ct :: ac :: px :: r =>
+          match flagArg an, hexArg ct, flagArg ac, hexArg px, pIntC r with
+          | some an, some ct, some ac, some px, some (bs, r) =>
+            match pPerm fuel r with
+            | none => none
+            | some (pn, r) =>
+              match pFile fuel r with
+              | none => none
+              | some (fl, r) =>
+                match pDir fuel r with
+                | none => none
+                | some (dr, r) => some (.mk op a b ⟨an, ct, ac, px, bs⟩ pn fl dr, r)
+          | _, _, _, _, _ => none
+        | _ => none
+    | _ => none
+def pPerm : Nat → P Perm
+  | 0, _ => none
+  | fuel + 1, ws =>
+    match ws with
+    | "-" :: r => some (.nil, r)
+    | "p" :: atr :: sh :: r =>
+      match hexArg atr, flagArg sh, pIntC r with
+      | some atr, some sh, some (nv, va :: v :: r) =>
+        match flagArg va, hexArg v, pStrC r with
+        | some va, some v, some (vm, r) =>
+          match pIntC r with
+          | none => none
+          | some (vi, r) =>
+            match pCons fuel r with
+            | none => none
+            | some (inSet, r) =>
+              let rl : Option (Option RFlat × Cons × Cons × List String) :=
+                match r with
+                | "-" :: r => some (none, .nil, .nil, r)
+                | "r" :: rn :: et :: r =>
+                  match hexArg rn, hexArg et, pCons fuel r with
+                  | some rn, some et, some (any, r) =>
+                    match pCons fuel r with
+                    | none => none
+                    | some (all, r) =>
+                      if (rn == sParent || rn == sChild) && (any.isNil != all.isNil)
+                      then some (some ⟨rn, et⟩, any, all, r) else none
+                  | _, _, _ => none
+                | _ => none
+              match rl with
+              | none => none
+              | some (rel, any, all, r) =>
+                match pTimeC r with
+                | none => none
+                | some (mt, r) =>
+                  match pTimeC r with
+                  | none => none
+                  | some (tm, r) => some (.mk ⟨atr, sh, nv, va, v, vm, vi, mt, tm⟩ inSet rel any all, r)
+        | _, _, _ => none
+      | _, _, _ => none
+    | _ => none
+def pFile : Nat → P FileC
+  | 0, _ => none
+  | fuel + 1, ws =>
+    match ws with
+    | "-" :: r => some (.nil, r)
+    | "f" :: r =>
+      match pIntC r with
+      | none => none
+      | some (sz, r) =>
+        match pStrC r with
+        | none => none
+        | some (nm, r) =>
+          match pStrC r with
+          | none => none
+          | some (mi, r) =>
+            match pTimeC r with
+            | none => none
+            | some (tm, r) =>
+              match pTimeC r with
+              | some (mt, wr :: r) =>
+                match hexArg wr, pDir fuel r with
+                | some wr, some (pd, r) => some (.mk ⟨sz, nm, mi, tm, mt, wr⟩ pd, r)
+                | _, _ => none
+              | _ => none
+    | _ => none
+def pDir : Nat → P DirC
+  | 0, _ => none
+  | fuel + 1, ws =>
+    match ws with
+    | "-" :: r => some (.nil, r)
+    | "d" :: r =>
+      match pStrC r with
+      | some (nm, px :: r) =>
+        match hexArg px, pDir fuel r with
+        | some px, some (pd, r) =>
+          match pIntC r with
+          | none => none
+          | some (tc, r) =>
+            match pCons fuel r with
+            | none => none
+            | some (rc, r) =>
+              match pCons fuel r with
+              | none => none
+              | some (cc, r) => some (.mk ⟨nm, px, tc⟩ pd rc cc, r)
+        | _, _ => none
+      | _ => none
+    | _ => none
+end
+
+def sortOf (s : String) : Option SortT :=
+  if s == "unspec" then some .unspec else if s == "unsorted" then some .unsorted
+  else if s == "-mod" then some .lastModDesc else if s == "mod" then some .lastModAsc
+  else if s == "-created" then some .createdDesc else if s == "created" then some .createdAsc
+  else if s == "blobref" then some .blobRefAsc else if s == "map" then some .map else none
+
+/-! ### state -/
+
+structure S where
+  w : World
+  kinds : List (Ref × String)   -- pn | claim | bytes | file | dir | ss
+  pns : List Ref                -- upload order
+  lastDate : Nat
+  pnLast : List (Ref × Nat)
+
+def S.init : S := ⟨⟨[], [], [], [], [], []⟩, [], [], 0, []⟩
+
+def S.kind (s : S) (r : Ref) : String :=
+  match s.kinds.find? (fun p => p.1 == r) with
+  | some p => p.2
+  | none => ""
+
+def S.size (s : S) (r : Ref) : Nat :=
+  match s.w.getBlob r with
+  | some b => b.size
+  | none => 0
+
+def S.addBlob (s : S) (r : Ref) (ct : String) (size : Nat) (kind : String) : S :=
+  { s with w := { s.w with blobs := s.w.blobs ++ [⟨r, ofString ct, size⟩] }, kinds := s.kinds ++ [(r, kind)] }
+
+/-- a fresh (ref, size) pair of an upload op -/
+def S.fresh (s : S) (ref size : String) : Option (Ref × Nat) :=
+  match refWord ref, natArg size with
+  | some r, some n => if s.kind r == "" then some (r, n) else none
+  | _, _ => none
+
+def dateCutoff : Nat := 1600000000
+
+def S.dateOK (s : S) (d : String) (pn : Option Ref) : Option Nat :=
+  match natArg d with
+  | none => none
+  | some d =>
+    let pl := match pn with
+      | none => 0
+      | some p => match s.pnLast.find? (fun x => x.1 == p) with
+        | some x => x.2
+        | none => 0
+    if d == 0 || d ≥ dateCutoff || d < s.lastDate || (pn.isSome && d ≤ pl) then none else some d
+
+def showTime (t : Nat) : String := if t == 0 then "none" else toString t
+
+def showRefs (l : List Ref) : String :=
+  if l.isEmpty then "-" else ",".intercalate (l.map toAsciiString)
+
+def sortRefs (l : List Ref) : List Ref := isort ltB l
+
+/-- maximal runs of consecutive results with the same time -/
+def runsBy (key : Ref → Nat) : List Ref → List (List Ref)
+  | [] => []
+  | r :: rs =>
+    match runsBy key rs with
+    | [] => [[r]]
+    | (x :: run) :: more => if key x == key r then (r :: x :: run) :: more else [r] :: (x :: run) :: more
+    | [] :: more => [r] :: more
+
+def doQuery (s : S) (srt lim : String) (cw : List String) : String :=
+  match sortOf srt, intArg lim, pCons 65 cw with
+  | some st, some lim, some (c, []) =>
+    if !(-2147483648 ≤ lim ∧ lim ≤ 2147483647) || c.isNil then "bad-op" else
+    match query tbl s.w ⟨c, st, lim⟩ with
+    | .error .invalid => "invalid"
+    | .error .nilDeref => "panic"
+    | .error _ => "err"
+    | .ok (src, res) =>
+      let refs := res.map (·.ref)
+      let effLimit : Int := if lim == 0 then 200 else lim
+      let mayCut := effLimit > 0 && (refs.length : Int) ≥ effLimit && st != .map
+      let body :=
+        if src.sorted || st == .blobRefAsc then showRefs refs
+        else if st == .createdAsc then
+          let runs := runsBy s.w.anyTime refs
+          let n := runs.length
+          let parts := (runs.zipIdx).map (fun (run, i) =>
+            if mayCut && i + 1 == n then [ofString s!"~{run.length}"] else sortRefs run)
+          showRefs parts.flatten
+        else if mayCut then s!"n={refs.length}"
+        else showRefs (sortRefs refs)
+      s!"ok {src.name} {body}"
+  | _, _, _ => "bad-op"
+
+def step (s : S) (ws : List String) : S × String :=
+  match ws with
+  | ["pn", ref, size, key] =>
+    (match s.fresh ref size with
+     | some (r, n) => if keyOK key then ({ s.addBlob r "permanode" n "pn" with pns := s.pns ++ [r] }, "ok") else (s, "bad-op")
+     | none => (s, "bad-op"))
+  | ["cl", ref, size, pn, kind, attr, val, date] =>
+    (match s.fresh ref size, refWord pn, hexArg attr, hexArg val with
+     | some (r, n), some p, some a, some v =>
+       let k? : Option CKind := if kind == "set" then some .set else if kind == "add" then some .add
+         else if kind == "del" then some .del else none
+       match k?, s.dateOK date (some p) with
+       | some k, some d =>
+         if s.kind p != "pn" || a.isEmpty then (s, "bad-op") else
+         let s1 := s.addBlob r "claim" n "claim"
+         ({ s1 with w := { s1.w with claims := s1.w.claims ++ [⟨p, k, a, v, d⟩] }, lastDate := d,
+                    pnLast := (p, d) :: s1.pnLast }, "ok")
+       | _, _ => (s, "bad-op")
+     | _, _, _, _ => (s, "bad-op"))
+  | ["del", ref, size, pn, date] =>
+    (match s.fresh ref size, refWord pn, s.dateOK date none with
+     | some (r, n), some p, some d =>
+       if s.kind p != "pn" || s.w.isDeleted p then (s, "bad-op") else
+       let s1 := s.addBlob r "claim" n "claim"
+       ({ s1 with w := { s1.w with deleted := p :: s1.w.deleted, claims := s1.w.claims ++ [⟨p, .delete, [], [], d⟩] },
+                  lastDate := d }, "ok")
+     | _, _, _ => (s, "bad-op"))
+  | ["bytes", ref, size, content] =>
+    (match s.fresh ref size, hexArg content with
+     | some (r, n), some c =>
+       if c.length != n then (s, "refmismatch") else (s.addBlob r "" n "bytes", "ok")
+     | _, _ => (s, "bad-op"))
+  | ["file", ref, size, name, whole, mtime, mime] =>
+    (match s.fresh ref size, hexArg name, refWord whole, natArg mtime, hexArg mime with
+     | some (r, n), some nm, some wr, some mt, some mi =>
+       if s.kind wr != "bytes" then (s, "bad-op") else
+       let s1 := s.addBlob r "file" n "file"
+       ({ s1 with w := { s1.w with files := s1.w.files ++ [⟨r, nm, s.size wr, mi, mt, 0, wr⟩] } }, "ok")
+     | _, _, _, _, _ => (s, "bad-op"))
+  | ["dir", ref, size, name, ssref, sssize, children] =>
+    (match s.fresh ref size, hexArg name, s.fresh ssref sssize with
+     | some (r, n), some nm, some (sr, sn) =>
+       let ch? : Option (List Ref) := if children == "-" then some [] else (children.splitOn ",").mapM refWord
+       match ch? with
+       | none => (s, "bad-op")
+       | some ch =>
+         if r == sr || ch.eraseDups.length != ch.length then (s, "bad-op") else
+         let s1 := (s.addBlob sr "static-set" sn "ss").addBlob r "directory" n "dir"
+         ({ s1 with w := { s1.w with files := s1.w.files ++ [⟨r, nm, 0, [], 0, 0, []⟩],
+                                     dirs := s1.w.dirs ++ [(r, ch)] } }, "ok")
+     | _, _, _ => (s, "bad-op"))
+  | ["ctime", pn, t] =>
+    (match refWord pn with
+     | some p =>
+       if s.kind p != "pn" then (s, "bad-op") else
+       if t == "none" then ({ s with w := { s.w with ctime := (p, 0) :: s.w.ctime } }, "ok") else
+       match natArg t with
+       | some tt => if tt == 0 then (s, "bad-op") else ({ s with w := { s.w with ctime := (p, tt) :: s.w.ctime } }, "ok")
+       | none => (s, "bad-op")
+     | none => (s, "bad-op"))
+  | ["times"] =>
+    (s, if s.pns.isEmpty then "-" else
+      " ".intercalate (s.pns.map (fun p => showTime (s.w.anyTime p) ++ "/" ++ showTime (s.w.modTime p))))
+  | ["pv", pn, attr] =>
+    (match refWord pn, hexArg attr with
+     | some p, some a =>
+       if s.kind p != "pn" || a.isEmpty then (s, "bad-op") else
+       let vs := s.w.attrVals p a
+       (s, if vs.isEmpty then "none" else ",".intercalate (vs.map toHexString))
+     | _, _ => (s, "bad-op"))
+  | "q" :: srt :: lim :: c1 :: cw => (s, doQuery s srt lim (c1 :: cw))
+  | _ => (s, "bad-op")
+
+def machine : Machine := { σ := S, init := S.init, step := step }
+
 end Pk.Drv.C08
